@@ -549,9 +549,11 @@ func (x *TopicsIndex) scanMessages(filter string, d int, n *particle, pks []pack
 
 	key, hasNext := isolateParticle(filter, d)
 	if key == "+" || key == "#" || d == -1 {
-		if key == "#" && n.retainPath != "" { // a trailing # also matches the parent level [MQTT-4.7.1-2]
-			if pk, ok := x.Retained.Get(n.retainPath); ok {
-				pks = append(pks, pk)
+		if key == "#" { // a trailing # also matches the parent level [MQTT-4.7.1-2]
+			if rp := n.retained(); rp != "" {
+				if pk, ok := x.Retained.Get(rp); ok {
+					pks = append(pks, pk)
+				}
 			}
 		}
 
@@ -561,8 +563,8 @@ func (x *TopicsIndex) scanMessages(filter string, d int, n *particle, pks []pack
 			}
 
 			if !hasNext && key != "#" { // below a # every particle adds its own message (above)
-				if adjacent.retainPath != "" {
-					if pk, ok := x.Retained.Get(adjacent.retainPath); ok {
+				if rp := adjacent.retained(); rp != "" {
+					if pk, ok := x.Retained.Get(rp); ok {
 						pks = append(pks, pk)
 					}
 				}
@@ -580,7 +582,7 @@ func (x *TopicsIndex) scanMessages(filter string, d int, n *particle, pks []pack
 			return x.scanMessages(filter, d+1, particle, pks)
 		}
 
-		if pk, ok := x.Retained.Get(particle.retainPath); ok {
+		if pk, ok := x.Retained.Get(particle.retained()); ok {
 			pks = append(pks, pk)
 		}
 	}
@@ -774,6 +776,18 @@ type particle struct {
 	inlineSubscriptions *InlineSubscriptions // a map of inline subscriptions for this particle
 	retainPath          string               // path of a retained message
 	sync.Mutex                               // mutex for when making changes to the particle
+}
+
+// retained returns the path of the retained message held by the particle. RetainMessage writes
+// retainPath under the particle's lock while subscribers scan the index without the root lock,
+// so the read takes the particle's lock as well (the root never holds a message).
+func (p *particle) retained() string {
+	if p.parent == nil {
+		return ""
+	}
+	p.Lock()
+	defer p.Unlock()
+	return p.retainPath
 }
 
 // newParticle returns a pointer to a new instance of particle.
